@@ -1061,4 +1061,219 @@ theorem case_fns_exact (c : Case) (hps : c.ps = 4 ∨ c.ps = 8) (hb : C12.CaseBo
     cases vft <;> simp
 
 
+/-! ### C11: the scope every type name of a declared item is looked up in -/
+
+/-- what `use` list a module path has in the case: that of a module written under the path (the root module, if no
+    module is written under `[]`, has none) -/
+def UsesOf (c : Case) (path : Path) (uses : List Path) : Prop :=
+  (path = [] ∧ uses = []) ∨ ∃ file m, ModEnt.ast path file m ∈ c.modules ∧ uses = m.uses
+
+theorem usesOf_of_src (c : Case) (path : Path) (md : Mod) (h : ModSrc c path md) :
+    md.scope = path :: md.uses ∧ UsesOf c path md.uses := by
+  rcases h with ⟨hp, hpath, huses, _⟩ | ⟨file, m, hm, hpath, huses, _⟩
+  · exact ⟨by unfold Mod.scope; rw [hpath, hp], Or.inl ⟨hp, huses⟩⟩
+  · exact ⟨by unfold Mod.scope; rw [hpath], Or.inr ⟨file, m, hm, huses⟩⟩
+
+/-- the scope of the stored module of a definition registered under `path ++ [name]`: the module's own path, then the
+    `use` entries of a module written in the case under that path -/
+theorem scope_src (c : Case) (s0 : State) (hQ : ModsGood (ModOf2 c) s0) (path : Path) (name : String) (md : Mod)
+    (hm : s0.moduleFor (path ++ [name]) = some md) : ∃ uses, md.scope = path :: uses ∧ UsesOf c path uses := by
+  obtain ⟨h1, h2⟩ := usesOf_of_src c path md (moduleFor_src c s0 hQ path name md hm).2
+  exact ⟨md.uses, h1, h2⟩
+
+/-- **the field types of every emitted struct**: a generated vftable struct, or built from a definition written in the
+    case under module path `path`, and then every field of the emitted struct is generated (private, undocumented:
+    padding, the vftable pointer) or is a named field statement `name: ty` of the definition whose type is `ty` resolved
+    with the scope `path :: uses` – the module's own path, then the `use` entries of a module written in the case under
+    that path – in a registry `s0.reg` that the final registry extends -/
+theorem case_field_types_master (c : Case) (hps : c.ps = 4 ∨ c.ps = 8) (hb : C12.CaseBounded c) (s : State)
+    (h : c.run = .ok s) (p : Path) (i : ItemDef) (r : Resolved) (td : TypeDefn)
+    (hg : s.reg.get p = some i) (hs : i.state = .res r) (hin : r.inner = .type td) (hc : i.cat = .defined) :
+    (∃ (reg0 : Registry) (owner : Path) (vis : Vis) (fns : List SFunc),
+        buildVftableItem reg0 owner vis fns = some i ∧ i.path = p ∧ i.vis = vis ∧
+        td = { regions := fns.map (functionToRegion owner) }) ∨
+    ∃ (item : G.Item) (d : G.TypeDef) (s0 : State) (path : Path) (uses : List Path),
+      Declared c p item ∧ item.inner = .type d ∧ p = path ++ [item.name] ∧ C02.Ext s0.reg s.reg ∧ UsesOf c path uses ∧
+      ∀ rg ∈ td.regions, (rg.vis = .priv ∧ rg.doc = none) ∨
+        ∃ st ∈ d.stmts, ∃ (vis : Vis) (name : String) (ty : G.Ty) (t : DTy),
+          st.field = .field vis name ty ∧ rg.name = some name ∧
+          s0.reg.resolveTy (path :: uses) ty = .ok t ∧ rg.ty = .data t := by
+  rcases case_type_origin2 c hps hb s h p i r td hg hs hin hc with
+    ⟨reg0, owner, vis, fns, hv, hp⟩ | ⟨s0, s1, item, d, hok, hinv, hQ, hD, hget, hd, hbt, he, hi⟩
+  · obtain ⟨htd, hvis, _⟩ := vftable_item_td reg0 owner vis fns i r td hv hs hin
+    exact Or.inl ⟨reg0, owner, vis, fns, hv, hp, hvis, htd⟩
+  · right
+    obtain ⟨module, module1, ta, sa, vft, vregion, placed, acc1, acc2, td', hmod, hmod1, hdoc, hta, hsa, hbv, hres, hn, hal,
+      hacc1, hacc2, hin', hfns, hvft, _⟩ := buildType_full s0 s1 p item.vis d r hbt
+    rw [hin] at hin'
+    cases hin'
+    have hD' := hD
+    obtain ⟨path, file0, m0, hm0, hitem0, hp⟩ := hD'
+    subst hp
+    obtain ⟨uses, hscope, huses⟩ := scope_src c s0 hQ path item.name module hmod
+    have he01 := Exec.buildVftable_ext s0 s1 (path ++ [item.name]) item.vis _ _ _ hbv
+    refine ⟨item, d, s0, path, uses, hD, hd, rfl, he01.trans he, huses, ?_⟩
+    intro rg hrg
+    rcases regions_src s1.reg vregion sa.pending ta.targetSize placed r.size td.regions hres hn rg hrg with
+      hgen | ⟨hnm, hv | hpend⟩
+    · exact Or.inl hgen
+    · left
+      rcases buildVftable_cases s0 s1 (path ++ [item.name]) item.vis _ sa.vfns vft vregion hbv with
+        ⟨_, _, hp, _⟩ | ⟨_, _, hp, _⟩ | ⟨_, _, _, _, hp, _⟩ | ⟨_, vpath, _, _, _, hp, _⟩ | ⟨_, _, _, _, _, _, _, _, _, hp, _⟩
+      · rw [hp] at hv; cases hv
+      · rw [hp] at hv; cases hv
+      · rw [hp] at hv; cases hv
+      · rw [hp] at hv; cases hv; exact ⟨rfl, rfl⟩
+      · rw [hp] at hv; cases hv
+    · right
+      obtain ⟨q, hq, rfl⟩ := List.mem_map.mp hpend
+      rcases stmts_pending_src s0.reg module.scope _ {} sa hsa q hq with hnil | ⟨e, he', vis, name, ty, fa, t, hf, _, _, hrt, hqe⟩
+      · cases hnil
+      · obtain ⟨x, hx, rfl⟩ := List.mem_map.mp he'
+        have hst : x.1 ∈ d.stmts := (List.mem_zipIdx hx).2.2 ▸ List.getElem_mem _
+        refine ⟨x.1, hst, vis, name, ty, t, hf, ?_, by rw [← hscope]; exact hrt, by rw [hqe]⟩
+        rw [hqe] at hnm ⊢
+        simp only at hnm ⊢
+        split
+        · rfl
+        · next hne => rw [if_neg hne] at hnm; cases hnm
+
+/-- **the virtual functions of every emitted struct**: if the definition starts with a vftable block, every slot of the
+    type's table holds the function built (`function::build`) from a function of the block with the scope `path :: uses`
+    in a registry the final one extends, or that slot's placeholder -/
+theorem case_vfunc_types_master (c : Case) (hps : c.ps = 4 ∨ c.ps = 8) (hb : C12.CaseBounded c) (s : State)
+    (h : c.run = .ok s) (p : Path) (i : ItemDef) (r : Resolved) (td : TypeDefn)
+    (hg : s.reg.get p = some i) (hs : i.state = .res r) (hin : r.inner = .type td) (hc : i.cat = .defined)
+    (v : Vft) (hv : td.vft = some v) :
+    ∃ (item : G.Item) (d : G.TypeDef) (s0 : State) (path : Path) (uses : List Path),
+      Declared c p item ∧ item.inner = .type d ∧ p = path ++ [item.name] ∧ C02.Ext s0.reg s.reg ∧ UsesOf c path uses ∧
+      ∀ st gfns, d.stmts[0]? = some st → st.field = .vftable gfns →
+        ∀ (k : Nat) (f : SFunc), v.fns[k]? = some f →
+          (∃ gf ∈ gfns, buildFunction s0.reg (path :: uses) true gf = .ok f) ∨ f = placeholderFn k := by
+  rcases case_type_origin2 c hps hb s h p i r td hg hs hin hc with
+    ⟨reg0, owner, vis, fns, hvi, hp⟩ | ⟨s0, s1, item, d, hok, hinv, hQ, hD, hget, hd, hbt, he, hi⟩
+  · obtain ⟨_, h2⟩ := Exec.vftable_item_plain reg0 owner vis fns i r td hvi hs hin
+    rw [h2] at hv; cases hv
+  · obtain ⟨module, module1, ta, sa, vft, vregion, placed, acc1, acc2, td', hmod, hmod1, hdoc, hta, hsa, hbv, hres, hn, hal,
+      hacc1, hacc2, hin', hfns, hvft, _⟩ := buildType_full s0 s1 p item.vis d r hbt
+    rw [hin] at hin'
+    cases hin'
+    have hD' := hD
+    obtain ⟨path, file0, m0, hm0, hitem0, hp⟩ := hD'
+    subst hp
+    obtain ⟨uses, hscope, huses⟩ := scope_src c s0 hQ path item.name module hmod
+    have he01 := Exec.buildVftable_ext s0 s1 (path ++ [item.name]) item.vis _ _ _ hbv
+    refine ⟨item, d, s0, path, uses, hD, hd, rfl, he01.trans he, huses, ?_⟩
+    intro st gfns hst hf k f hk
+    obtain ⟨size, out, hsize, hconv, hvfns⟩ := Exec.stmts_vfns_of_block s0.reg module.scope d.stmts sa hsa st gfns hst hf
+    have hout : v.fns = out := by
+      rw [hvft] at hv
+      rw [hvfns] at hbv
+      rcases buildVftable_cases s0 s1 (path ++ [item.name]) item.vis _ (some out) vft vregion hbv with
+        ⟨h1, _⟩ | ⟨h1, _⟩ | ⟨fns, _, _, _, _, h5⟩ | ⟨fns, vpath, h1, _, _, _, h5⟩ | ⟨fns, vpath, bn, bv, h1, _, _, _, _, _, h7⟩
+      · cases h1
+      · cases h1
+      · rw [h5] at hv; cases hv
+      · cases h1; rw [h5] at hv; cases hv; rfl
+      · cases h1; rw [h7] at hv; cases hv; rfl
+    rw [hout] at hk
+    rw [hscope] at hconv
+    exact convertVfuncs_slots s0.reg (path :: uses) size gfns out hconv k f hk
+
+/-- the stored modules of the final state of an accepted case are `add_module` of modules written in the case -/
+theorem case_modules_src (c : Case) (hps : c.ps = 4 ∨ c.ps = 8) (hb : C12.CaseBounded c) (s : State)
+    (h : c.run = .ok s) : ∀ e ∈ s.modules, e.2.scope = e.1 :: e.2.uses ∧ UsesOf c e.1 e.2.uses := by
+  obtain ⟨s1, ms, hJ, hms, rfl⟩ := case_J2 c hps hb s h
+  intro e he
+  simp only at he
+  obtain ⟨e0, he0, hstep⟩ := mapM'_mem _ _ _ hms e he
+  split at hstep
+  · next m' hm' =>
+    simp only [Res.ok.injEq] at hstep
+    subst hstep
+    obtain ⟨hsc, _, _, _⟩ := resolveXVals_inv s1.reg e0.2 m' hm'
+    obtain ⟨h1, h2⟩ := usesOf_of_src c e0.1 e0.2 (hJ.2.2.1 e0 he0).2
+    have hsc' : m'.path :: m'.uses = e0.1 :: e0.2.uses := by
+      have : m'.scope = e0.1 :: e0.2.uses := by rw [hsc, h1]
+      exact this
+    simp only [List.cons.injEq] at hsc'
+    refine ⟨?_, ?_⟩
+    · show m'.path :: m'.uses = e0.1 :: m'.uses
+      rw [hsc'.1]
+    · show UsesOf c e0.1 m'.uses
+      rw [hsc'.2]
+      exact h2
+  · exact (C14.cast_ne_ok _ _ hstep).elim
+
+/-- the parameter and return types of the built function `f` are those written on `gf`, resolved with `scope` in `reg` -/
+def FnTypes (reg : Registry) (scope : List Path) (gf : G.Func) (f : SFunc) : Prop :=
+  C05.specArgs reg scope gf.args = some f.args ∧
+  (∀ n t, SArg.field n t ∈ f.args → ∃ gty, G.Arg.named n gty ∈ gf.args ∧ reg.resolveTy scope gty = .ok t) ∧
+  (match gf.ret with
+   | none => f.ret = none
+   | some gt => ∃ t, reg.resolveTy scope gt = .ok t ∧ f.ret = some t)
+
+theorem specArgs_field_mem (reg : Registry) (scope : List Path) (gas : List G.Arg) (sas : List SArg)
+    (h : C05.specArgs reg scope gas = some sas) :
+    ∀ n t, SArg.field n t ∈ sas → ∃ gty, G.Arg.named n gty ∈ gas ∧ reg.resolveTy scope gty = .ok t := by
+  induction gas generalizing sas with
+  | nil =>
+    simp only [C05.specArgs, Option.some.injEq] at h
+    subst h
+    intro n t hm; cases hm
+  | cons ga rest ih =>
+    intro n t hm
+    cases ga with
+    | constSelf =>
+      simp only [C05.specArgs, Option.map_eq_some_iff] at h
+      obtain ⟨sas', hs', rfl⟩ := h
+      rcases List.mem_cons.mp hm with hm | hm
+      · cases hm
+      · obtain ⟨gty, h1, h2⟩ := ih sas' hs' n t hm
+        exact ⟨gty, List.mem_cons_of_mem _ h1, h2⟩
+    | mutSelf =>
+      simp only [C05.specArgs, Option.map_eq_some_iff] at h
+      obtain ⟨sas', hs', rfl⟩ := h
+      rcases List.mem_cons.mp hm with hm | hm
+      · cases hm
+      · obtain ⟨gty, h1, h2⟩ := ih sas' hs' n t hm
+        exact ⟨gty, List.mem_cons_of_mem _ h1, h2⟩
+    | named n' gt =>
+      simp only [C05.specArgs] at h
+      split at h
+      · next t' ht' =>
+        simp only [Option.map_eq_some_iff] at h
+        obtain ⟨sas', hs', rfl⟩ := h
+        rcases List.mem_cons.mp hm with hm | hm
+        · cases hm
+          exact ⟨gt, List.mem_cons_self, ht'⟩
+        · obtain ⟨gty, h1, h2⟩ := ih sas' hs' n t hm
+          exact ⟨gty, List.mem_cons_of_mem _ h1, h2⟩
+      · cases h
+
+theorem fnTypes_of_built (reg : Registry) (scope : List Path) (isV : Bool) (gf : G.Func) (f : SFunc)
+    (h : buildFunction reg scope isV gf = .ok f) : FnTypes reg scope gf f := by
+  have hargs := Exec.built_args reg scope isV gf f h
+  obtain ⟨_, _, _, _, ret, _, _, _, _, hret, _, _, _, _, _, hr⟩ := PyxisVerif.buildFunction_ok reg scope isV gf f h
+  refine ⟨hargs, specArgs_field_mem reg scope gf.args f.args hargs, ?_⟩
+  rw [hr]
+  exact hret
+
+theorem contains_ext {r r' : Registry} (he : C02.Ext r r') (q : Path) (h : r.contains q = true) : r'.contains q = true := by
+  unfold Registry.contains at h ⊢
+  cases hg : r.get q with
+  | none => rw [hg] at h; cases h
+  | some i =>
+    obtain ⟨i', hg', _⟩ := he.keep q i hg
+    rw [hg']
+    rfl
+
+theorem resolveTy_ident (reg : Registry) (scope : List Path) (nm : String) (t : DTy)
+    (h : reg.resolveTy scope (.ident nm) = .ok t) : reg.resolveString scope nm = some t := by
+  simp only [Registry.resolveTy] at h
+  split at h
+  · next t' ht' => cases h; exact ht'
+  · cases h
+
+
 end PyxisVerif.CaseLift2
